@@ -13,11 +13,20 @@
               all_or_nothing_wire_b with head = the method is HEAD)?  model's eh_alone = RESP_eh?
               model status, model headers ("k: v\n" each), model body length
      rw     VIA REQ  NOPS (kind a b)*  RESP_real
-       reply: model=real?  model status, headers, body length *)
+       reply: model=real?  model status, headers, body length
+     compose VIA REQ  MODE STATUS CTYPE  NTOK tok*  EHFLAG NOPS (kind a b)*  RESP_real  RESP_eh  RERR ROUT
+       the component is a composition of templ's combinators (spec/CompSpec.v), in prefix form:
+         N | L fail nchunks chunk* | R bytes | S a b | F c | O h c | P h c | T c | M n c
+       RERR/ROUT: whether the real composition's Render returned an error and what it wrote, rendered directly
+       with a context in the state of REQ's.
+       reply: model=real (response)?  specification predicate on the real response, with the document and
+              "failed" of the composition (all_or_nothing_wire_b)?  model's eh_alone = RESP_eh?
+              Render contract: RERR = the model's verdict and ROUT = the model's bytes?
+              model fails ("1"/"0"), length of the model's bytes, model status, headers, body length *)
 From Coq.Strings Require Import Byte String.
 From Coq Require Import List NArith Bool.
 Import ListNotations.
-From V Require Import lib.Bytes spec.HandlerSpec model.Handler.
+From V Require Import lib.Bytes spec.HandlerSpec spec.CompSpec model.Handler model.CompModel.
 Require Extraction.
 Require Import ExtrOcamlBasic.
 Open Scope N_scope.
@@ -131,9 +140,69 @@ Definition do_rw (a0 : list bytes) : list bytes :=
   | _ => [bs "?args"]
   end end.
 
+(* a composition in prefix form *)
+Fixpoint parse_comp (fuel : nat) (a : list bytes) : comp * list bytes :=
+  match fuel with
+  | O => (CNop, a)
+  | S k =>
+    match a with
+    | [] => (CNop, [])
+    | t :: r =>
+      if is t "L" then
+        match r with
+        | fl :: n :: r1 => let '(chs, r2) := take (N.to_nat (num n)) r1 in (CLeaf chs (flag fl), r2)
+        | _ => (CNop, [])
+        end
+      else if is t "R" then match r with b :: r1 => (CRaw b, r1) | [] => (CNop, []) end
+      else if is t "S" then
+        let '(x, r1) := parse_comp k r in let '(y, r2) := parse_comp k r1 in (CSeq x y, r2)
+      else if is t "F" then let '(x, r1) := parse_comp k r in (CFlush x, r1)
+      else if is t "T" then let '(x, r1) := parse_comp k r in (CTempl x, r1)
+      else if is t "O" then
+        match r with h :: r0 => let '(x, r1) := parse_comp k r0 in (COnce (N.to_nat (num h)) x, r1) | [] => (CNop, []) end
+      else if is t "P" then
+        match r with h :: r0 => let '(x, r1) := parse_comp k r0 in (COnceC (N.to_nat (num h)) x, r1) | [] => (CNop, []) end
+      else if is t "M" then
+        match r with n :: r0 => let '(x, r1) := parse_comp k r0 in (CLimit (num n) x, r1) | [] => (CNop, []) end
+      else (CNop, r)
+    end
+  end.
+
+Definition do_compose (a0 : list bytes) : list bytes :=
+  match a0 with [] => [bs "?args"] | via :: a1 =>
+  let '(q, a) := take_req a1 in
+  match a with
+  | mode :: st :: ct :: ntok :: r =>
+      let '(toks, r1) := take (N.to_nat (num ntok)) r in
+      let t := fst (parse_comp (S (length toks)) toks) in
+      match r1 with
+      | ehf :: nops :: r2 =>
+          let '(ops, r3) := take_ops (N.to_nat (num nops)) r2 in
+          let '(real, r4) := take_resp r3 in
+          let '(ehr, r5) := take_resp r4 in
+          match r5 with
+          | rerr :: rout :: _ =>
+              let c := {| c_status := num st; c_ctype := ct;
+                          c_errh := if flag ehf then Some (run_ops ops) else None;
+                          c_stream := is mode "s" |} in
+              let '(x, f, _) := run (ctx_done (q_ctx q)) t None in
+              let m := view via q (observe (serve q c (comp_component t))) in
+              let ehtie := match eh_alone q c with Some e => resp_eqb (view via q e) ehr | None => true end in
+              let spec := all_or_nothing_wire_b (is via "s" && is_head q) (num st) ct (if flag ehf then Some ehr else None)
+                            x f real in
+              let contract := Bool.eqb (flag rerr) f && bytes_eqb rout x in
+              b2 (resp_eqb m real) :: b2 spec :: b2 ehtie :: b2 contract :: b2 f :: dec (N.of_nat (length x)) :: show m
+          | _ => [bs "?args"]
+          end
+      | _ => [bs "?args"]
+      end
+  | _ => [bs "?args"]
+  end end.
+
 Definition dispatch (f : bytes) (a : list bytes) : list bytes :=
   if is f "serve" then do_serve a
   else if is f "rw" then do_rw a
+  else if is f "compose" then do_compose a
   else [bs "?"].
 
 Extraction "model.ml" dispatch.
